@@ -6,7 +6,7 @@ from .. import catalogue as K
 from .. import tys as T
 from .. import speccheck as S
 
-THEOREMS = ["c09_ignored", "c09_denied_step", "c09_unknown_member_result"]
+THEOREMS = ["c09_ignored", "c09_denied_step", "c09_unknown_member_result", "c09_accepted_keys"]
 
 
 def has_deny_anywhere(t):
